@@ -809,8 +809,12 @@ def classify_case(line, m, g):
 # GENERATORS
 # =============================================================================================
 CAT_TABLES = {"A1": (b"A", 1, [b"a1", b"a2"]), "A2": (b"A", 2, [b"a1", b"a2", b"a3"]), "B1": (b"B", 1, [b"b1"])}
-CATALOGS = [[], ["A1"], ["A2"], ["A1", "A2", "B1"]]
-IMPORT_ALPHA = [(b"A", 1, 2), (b"A", 1, None), (b"A", 2, 5), (b"A", 3, 2), (b"C", 1, 3), (b"C", 1, None)]
+# catalogs are registered in the order given: ascending and non-ascending versions of the same name ("latest" is the
+# highest version, not the last one registered)
+CATALOGS = [[], ["A1"], ["A2"], ["A1", "A2", "B1"], ["A2", "A1"], ["B1", "A2", "A1"]]
+# (A,3,2) and (A,3,3): no exact match in any catalog -> the latest version, trimmed / exactly fitting (with max_id 2 the
+# latest and the older version give the same slots; with 3 they differ)
+IMPORT_ALPHA = [(b"A", 1, 2), (b"A", 1, None), (b"A", 2, 5), (b"A", 3, 2), (b"A", 3, 3), (b"C", 1, 3), (b"C", 1, None)]
 
 
 def desc_of(key):
@@ -1277,9 +1281,9 @@ ASSUMPTIONS = [
 ]
 EXPLANATION = (
     "K7-reader-catalog: ion.NewReaderCat over streams that interleave user values with version markers, replacing tables "
-    "(imports lists of 0..2 declarations drawn from (A,1,2) (A,1,-) (A,2,5) (A,3,2) (C,1,3) (C,1,-), 0..2 fresh symbols) and "
-    "appending tables (imports: $ion_symbol_table), under the catalogs {} {A1} {A2} {A1,A2,B1} (A v1 [a1,a2], A v2 [a1,a2,a3], "
-    "B v1 [b1]), each rendered in binary (own encoder) and in text. Every history of one table item over the full alphabet and every "
+    "(imports lists of 0..2 declarations drawn from (A,1,2) (A,1,-) (A,2,5) (A,3,2) (A,3,3) (C,1,3) (C,1,-), 0..2 fresh symbols) and "
+    "appending tables (imports: $ion_symbol_table), under the catalogs {} {A1} {A2} {A1,A2,B1} {A2,A1} {B1,A2,A1}, registered in "
+    "that order (A v1 [a1,a2], A v2 [a1,a2,a3], B v1 [b1]), each rendered in binary (own encoder) and in text. Every history of one table item over the full alphabet and every "
     "history of two items over the reduced alphabet (<= 1 import, <= 1 symbol) exhaustively (three items in the thorough tier), "
     "sampled histories of 2..4 items over the full alphabet with shuffled catalogs. After every item user values probe the whole "
     "context: $0, system IDs, every slot in force as symbol value / annotation / field name (top level and nested), and at the "
